@@ -426,7 +426,7 @@ func appendSnapshotFunctions(b []byte, s *slip.Scope) []byte {
 			})
 			b = append(b, '\n')
 			b = pp.Append(b, s, slip.List{
-				slip.Symbol("use-package"),
+				slip.Symbol("in-package"),
 				slip.String(p.Name),
 			})
 			for _, fi := range fia {
@@ -437,7 +437,7 @@ func appendSnapshotFunctions(b []byte, s *slip.Scope) []byte {
 	}
 	b = append(b, '\n')
 	b = pp.Append(b, s, slip.List{
-		slip.Symbol("use-package"),
+		slip.Symbol("in-package"),
 		slip.String(slip.CurrentPackage.Name),
 	})
 	return b
